@@ -82,7 +82,12 @@ inline int xcmp(const XQ& e, const XQ& s) {
   if (::sgn(s.q) < 0) return 1;
   Q s2 = s.q * s.q; return cmp(e.q, s2);
 }
-inline int xcmp(const XQ& e, const Q& s) { return xcmp(e, XQ(s)); }
+inline int xcmp(const XQ& e, const Q& s) {
+  if (e.nan()) return 2; if (e.k == XQ::MINF) return -1; if (e.k == XQ::PINF) return 1;
+  if (!e.root) return cmp(e.q, s);
+  if (::sgn(s) < 0) return 1;
+  Q s2 = s * s; return cmp(e.q, s2);
+}
 
 enum Undef { U_NONE = 0, U_NAN_OPERAND, U_INF_ADD_INF, U_INF_SUB_INF, U_INF_MUL_ZERO, U_DIV_ZERO, U_INF_DIV_INF, U_INF_MOD, U_MOD_ZERO, U_SQRT_NEG, U_SILENT };
 static const char* const UNDEF_NAME[] = { "defined", "nan-operand", "inf+(-inf)", "inf-inf", "inf*0", "div-by-zero", "inf/inf", "inf-mod", "mod-zero", "sqrt-neg", "doc-silent" };
@@ -373,7 +378,7 @@ typedef Result (*UnRun)(const void* xs, size_t i, Rounding_Dir d, XQ& stored);
 typedef Result (*E2Run)(const void* xs, size_t i, unsigned e, Rounding_Dir d, XQ& stored);
 typedef Result (*FuRun)(const void* accs, size_t k, const void* xs, size_t i, const void* ys, size_t j, Rounding_Dir d, XQ& stored);
 typedef Result (*SpRun)(int which, Rounding_Dir d, XQ& stored);
-struct CmpOut { bool p[6]; int c; };
+struct CmpOut { bool p[6]; int c; bool has_cmp; };
 typedef CmpOut (*CmpRun)(const void* xs, size_t i, const void* ys, size_t j, bool ordered);
 typedef int (*SgnRun)(const void* xs, size_t i);
 
